@@ -280,11 +280,20 @@ def run_case(case, ctx):
             d = numpy.array(ev.data)
             sp = StateVectorPropagator(t, H1)
             sp.setDtRefinement(nref)
-            sv = sp.propagate(qr.StateVector(data=psi0.copy()), L=order)
+            psi_store = psi0.copy()                     # complex storage handed to the library, kept by the caller
+            sv_in = qr.StateVector(data=psi_store)
+            sv = sp.propagate(sv_in, L=order)
             psi = numpy.array(sv.data)
+            # the caller's state object used again (as a program that compares orders or refinements does)
+            psi_again = numpy.array(sp.propagate(sv_in, L=order).data)
+            rho_from_sv = numpy.array(sv_in.get_DensityMatrix().data) if hasattr(sv_in, "get_DensityMatrix") else None
         L = gksl.hamiltonian_part(Hd)
         bounds, x, M = gksl.taylor_bounds(L, case["dt"] / nref, order, nref, case["Nt"], 1.0)
         det["x"] = x
+        ctx.check("closed:psi-vs-rho", float(numpy.max(numpy.abs(psi_again - psi))), 0.0, dict(det, what="second state-vector propagation of the same StateVector object"))
+        ctx.check("closed:psi-vs-rho", float(numpy.max(numpy.abs(psi_store - psi0))), 0.0, dict(det, what="the caller's initial state vector after the propagation"))
+        if rho_from_sv is not None:
+            ctx.check("closed:psi-vs-rho", float(numpy.max(numpy.abs(rho_from_sv - rho0))), 1e-14, dict(det, what="density matrix of the initial state vector after it was propagated"))
         b = bounds * 4 + 1e-12
         valid_state_checks(ctx, d, det, bounds, positive=True)
         pur = numpy.abs(numpy.einsum("tij,tji->t", d, d).real - 1.0)
